@@ -102,8 +102,13 @@ all), and every quick check was run on the unchanged tree with several `VERIF_SE
 * **Hooks.** Built: `verif_on.go` / `verif_off.go` (scanner and block-reader wrappers, table fingerprint, event hook
   variable) and one-line `verifEmit` calls in the SRT, WebVTT, SSA and STL reader loops. They fire at the *top* of the
   iteration (the state left by the previous lines, which is what the model's `Obs` reports), keyed by the
-  `io.Reader`. No hooks were added to the teletext reader: its page assembly is specified normatively
-  (`Teletext.Expected`) and checked against by-construction truths instead. The random drivers use `math/rand`
+  `io.Reader`. The teletext reader got its hook late (`2a237d5`, top of `parsePacket`): the page buffer's control state
+  (magazine, packet number, `receiving`, selected magazine / page) at every packet that reaches the dispatcher.
+  `Teletext.CtlStep` transcribes `parsePacketHeader`; the first version predicted the normative decoder's state and
+  drifted on 136 events - the code ends a page in serial mode only when the page *number* differs, so the header of the
+  page with the same number in another magazine leaves `receiving` set. No well-formed stream can show that in its
+  cues (`TeletextMC`: `CtlRefines`, lockstep with the normative decoder), so it is a named deviation of the
+  implementation layer, not a finding; drift is now 0 on all eight families. The random drivers use `math/rand`
   with `VERIF_SEED`; `pgregory.net/rapid` is not used.
 * **Known-finding predicates** live in the trace specification that judges the event (`TraceStl`: `ReplaceCp`;
   `TraceSession`: `SwapAll`), not in a separate `Deviations.tla`.
@@ -133,9 +138,9 @@ the same sites).
 |---|---|---|
 %s
 
-Two `verif:` commits add the guarded hooks (`ff470a3`: `verif_on.go` / `verif_off.go` with the scanner and
+Three `verif:` commits add the guarded hooks (`ff470a3`: `verif_on.go` / `verif_off.go` with the scanner and
 block-reader wrappers, the table fingerprint and the event hook variable; `c2660e5`: one-line `verifEmit` calls in
-the SRT, WebVTT, SSA and STL reader loops). With the tag off `verifEmit` is an empty function and the suite passes.
+the SRT, WebVTT, SSA and STL reader loops; `2a237d5`: one line at the top of the teletext packet dispatcher). With the tag off `verifEmit` is an empty function and the suite passes.
 
 ### 10.4 Open known findings
 
